@@ -83,7 +83,8 @@ struct Digit {
 
             if (!IsUnsigned<Number_T>()) {
                 if (number < 0) {
-                    qn.Integer = -qn.Integer;
+                    // Negate as unsigned: -MIN is not representable in the signed type.
+                    qn.Natural = decltype(qn.Natural)(0U - qn.Natural);
                     stream += DigitUtils::DigitChar::Negative;
                 }
             }
